@@ -99,7 +99,13 @@ def single_cases(fam, cases, variants=("fn",)):
                         for k, v in zip(kinds, c["a"])]
             except Exception as e:  # building a line through join may itself raise: not this case's business
                 continue
-            if variant in ("fn", "lines-from-points"):
+            if variant == "same-object":
+                # the identical Python object passed twice (coincident arguments by construction)
+                if not (kinds[0] == kinds[1] and c["a"][0] == c["a"][1]):
+                    continue
+                objs = [objs[0], objs[0]] + objs[2:]
+                st, res = _call(op, objs)
+            elif variant in ("fn", "lines-from-points"):
                 st, res = _call(op, objs)
             elif variant == "method":
                 if op == "meet" and len(objs) != 2:
@@ -205,6 +211,35 @@ def batch_cases(fam, cases, shape):
         if bad:
             out.append(dict(cls="value", site=site + "/contains", stratum="general", case=case_summary,
                             expected="result incident with every argument at every position", observed=bad))
+    return out
+
+
+def empty_case(fam):
+    """A collection with no element has no dependent position: the call must not raise."""
+    from ..abstraction import matrix_from_pluecker  # noqa: F401
+    op, dim, kinds = FAMS[fam]
+    g = import_geometer()
+    out = []
+    for shape in ((0,), (0, 2)):
+        colls = []
+        for k in kinds:
+            if k == "line3":
+                colls.append(g.LineCollection(np.zeros(shape + (4, 4))))
+            elif k == "point":
+                colls.append(g.PointCollection(np.zeros(shape + (dim + 1,))))
+            elif k == "line":
+                colls.append(g.LineCollection(np.zeros(shape + (3,))))
+            else:
+                colls.append(g.PlaneCollection(np.zeros(shape + (4,))))
+        st, res = _call(op, colls)
+        site = f"{op}({','.join(kinds)})/{dim}D/collection"
+        if st == "exc":
+            out.append(dict(cls="raise-on-independent", site=site, stratum="empty-collection",
+                            case={"f": fam, "shape": list(shape)}, expected="an empty collection",
+                            observed=f"raised {err_name(res)}: {res}"))
+        elif tuple(res.shape[: len(shape)]) != shape:
+            out.append(dict(cls="value", site=site, stratum="empty-collection", case={"f": fam, "shape": list(shape)},
+                            expected={"shape": list(shape)}, observed={"shape": list(res.shape)}))
     return out
 
 
@@ -339,6 +374,8 @@ def _work(job):
             return batch_cases(job[1], job[2], job[3])
         if kind == "rt":
             return roundtrip_cases(job[1])
+        if kind == "empty":
+            return empty_case(job[1])
     except Exception as e:  # noqa: BLE001  -- a bug of the harness, not a verdict
         import traceback
 
@@ -391,11 +428,15 @@ def run(ctx: Ctx) -> int:
         # singles: all degenerate ones (bounded), a sample of the general ones, every API variant
         dsel = degenerate if ctx.tier == "thorough" else degenerate[:3000]
         gsel = general if ctx.tier == "thorough" else general[:4000]
-        variants = ["fn", "method", "ctor"]
+        variants = ["fn", "method", "ctor", "same-object"]
         if "line3" in FAMS[f][2]:
             variants.append("lines-from-points")
         for i in range(0, len(dsel), 400):
             jobs.append(("single", f, dsel[i:i + 400], ("fn",) if prop == "C01" else tuple(variants)))
+        if prop == "C02":      # the same object twice: all exactly-equal argument pairs of the family
+            same = [c for c in degenerate if FAMS[f][2][0] == FAMS[f][2][1] and c["a"][0] == c["a"][1]]
+            for i in range(0, len(same), 400):
+                jobs.append(("single", f, same[i:i + 400], ("same-object",)))
         for i in range(0, len(gsel), 400):
             jobs.append(("single", f, gsel[i:i + 400], tuple(variants)))
         # collections: (a) all-independent batches -> values; (b) mixed batches -> error + mask
@@ -424,12 +465,26 @@ def run(ctx: Ctx) -> int:
                 continue
             rng.shuffle(chunk)
             jobs.append(("batch", f, chunk, shape))
+        # (c) batches in which EVERY position is dependent (the mask must still have one entry per position),
+        #     including collections of length 1, and (d) empty collections (no dependent position: no error)
+        ALLDEP = [(1,), (3,), (2, 2), (4,), (1, 1)]
+        di = 0
+        for j in range(12 if ctx.tier == "quick" else 60):
+            shape = ALLDEP[j % len(ALLDEP)]
+            m = int(np.prod(shape))
+            only = [c for c in degenerate if c["e"] == "LinearDependence"]
+            if len(only) < m:
+                break
+            chunk = [only[(di + x) % len(only)] for x in range(m)]
+            di += m
+            jobs.append(("batch", f, chunk, shape))
+        jobs.append(("empty", f))
     ctx.log(f"{len(jobs)} replay jobs")
     with Pool(16) as pool:
         results = pool.map(_work, jobs, chunksize=4)
     nrep = 0
     for job, res in zip(jobs, results):
-        cs = job[2] if job[0] != "rt" else job[1]
+        cs = [] if job[0] == "empty" else (job[2] if job[0] != "rt" else job[1])
         nrep += len(cs) * (len(job[3]) if job[0] == "single" else 1)
         for c in cs:
             ctx.count(c["s"])
